@@ -3,6 +3,7 @@ package main
 // Trusted models of the library calls made by the emitted runtime (net/http, context, errors.As, io).
 
 import (
+	"go/token"
 	"fmt"
 	"go/ast"
 	"go/types"
@@ -89,6 +90,43 @@ func init() {
 		return []Value{{okT, boolT}}
 	}
 	libWritesHeap["errors.As"] = false
+	libModels["encoding/json.Unmarshal"] = func(ex *Exec, p *Path, _ *Value, a []Value, call *ast.CallExpr) []Value {
+		// json.Unmarshal(data, &local) with a pointer-free target: the call writes only the local; whether it succeeds and
+		// what it stores on success are (uninterpreted) functions of the bytes and the target type. Anything else: as before.
+		fn := ex.calleeOf(call)
+		if len(call.Args) == 2 && !ex.inContract() {
+			if u, ok := unparen(call.Args[1]).(*ast.UnaryExpr); ok && u.Op == token.AND {
+				if id, isID := unparen(u.X).(*ast.Ident); isID {
+					if obj, _ := ex.info.Uses[id].(*types.Var); obj != nil && jsonFlatTarget(obj.Type()) && (obj.Pkg() == nil || obj.Parent() != obj.Pkg().Scope()) {
+						ex.c.Trust("encoding/json.Unmarshal into a pointer-free local: writes only that local; success and the decoded value are functions of the bytes and the target type (a non-nil map/slice target keeps unknown old entries)")
+						old := ex.eval(p, id)
+						okT, decT := ex.jsonDecodeTerms(a[0].T, obj.Type())
+						errT := types.Universe.Lookup("error").Type()
+						errV := Value{ex.c.Fresh("lib:json.Unmarshal", ex.c.SortOf(errT)), errT}
+						p.Assume(ex.c.typeInvariant(errV))
+						p.Assume(eq(ex.isNilTerm(errV), okT))
+						dec := Value{decT, obj.Type()}
+						ex.assumeFact(p, ex.c.typeInvariant(dec))
+						unknown := Value{ex.c.Fresh("jsonw:"+id.Name, ex.c.SortOf(obj.Type())), obj.Type()}
+						p.Assume(ex.c.typeInvariant(unknown))
+						good := okT
+						switch obj.Type().Underlying().(type) {
+						case *types.Map, *types.Slice:
+							good = and(okT, ex.isNilTerm(old))
+						}
+						ex.assignTo(p, id, Value{ite(good, dec.T, unknown.T), obj.Type()})
+						return []Value{errV}
+					}
+				}
+			}
+		}
+		if fn == nil {
+			ex.unsupp(call.Pos(), "json.Unmarshal: callee")
+		}
+		ex.havocSliceArgs(p, call)
+		return ex.havocCall(p, fn, true)
+	}
+	libWritesHeap["encoding/json.Unmarshal"] = true
 	libModels["(*sync.Once).Do"] = func(ex *Exec, p *Path, recv *Value, a []Value, call *ast.CallExpr) []Value {
 		ex.c.Trust("sync.Once.Do: runs the function at most once; package-level state it writes is unknown afterwards")
 		ex.havocMutableHeap(p)
@@ -145,4 +183,40 @@ func (ex *Exec) requestWellFormed(p *Path, v Value) {
 			p.Assume(not(ex.isNilTerm(fv)))
 		}
 	}
+}
+
+
+// jsonFlatTarget: types json.Unmarshal fills without following a pointer (scalars, strings, raw-message maps, slices of those).
+func jsonFlatTarget(t types.Type) bool {
+	switch u := t.Underlying().(type) {
+	case *types.Basic:
+		return u.Info()&(types.IsInteger|types.IsFloat|types.IsString|types.IsBoolean) != 0
+	case *types.Slice:
+		if b, ok := u.Elem().Underlying().(*types.Basic); ok {
+			return b.Info()&(types.IsInteger|types.IsFloat|types.IsString|types.IsBoolean) != 0
+		}
+		if s, ok := u.Elem().Underlying().(*types.Slice); ok {
+			b, isB := s.Elem().Underlying().(*types.Basic)
+			return isB && b.Kind() == types.Uint8
+		}
+	case *types.Map:
+		if kb, ok := u.Key().Underlying().(*types.Basic); !ok || kb.Kind() != types.String {
+			return false
+		}
+		if s, ok := u.Elem().Underlying().(*types.Slice); ok {
+			b, isB := s.Elem().Underlying().(*types.Basic)
+			return isB && b.Kind() == types.Uint8
+		}
+	}
+	return false
+}
+
+// jsonDecodeTerms: "these bytes decode into a T" and "the T they decode into" (read by the contract builtins
+// jsonDecodes / jsonDecoded as well).
+func (ex *Exec) jsonDecodeTerms(data string, t types.Type) (string, string) {
+	bs := ex.c.SortOf(types.NewSlice(types.Typ[types.Uint8]))
+	key := types.TypeString(t, nil)
+	okF := ex.c.Fun("json.decodes:"+key, []string{bs}, "Bool")
+	valF := ex.c.Fun("json.decoded:"+key, []string{bs}, ex.c.SortOf(t))
+	return app(okF, data), app(valF, data)
 }
